@@ -296,8 +296,14 @@ def run_impl(case):
                 continue
             used.append(op)
             try:
-                set_apply(pr, handles, op)
+                red = set_apply(pr, handles, op)
                 oks.append(True)
+                if op[0] == 'reduce':
+                    # the reduced set, the conversions it was made from and the grouping the implementation used
+                    members = list(pr)
+                    out['reduce'] = {'xs': [fr_json(frac(it.X)) for it in members],
+                                     'groups': [[k for k, it in enumerate(members) if flat_ridx(it) == flat_ridx(r)] for r in red],
+                                     'result': [snap(r) for r in red]}
             except Exception as ex:
                 oks.append(False)
                 out.setdefault('errors', []).append(type(ex).__name__)
@@ -386,8 +392,13 @@ def coq_case(case, out):
         mws = qlist(e['MW'] * nph)
         rs = clist([crxn(s) for s in init])
         acts = qlist([F(x) for x in out['acts']])
+        red = 'true'
+        if 'reduce' in out:
+            rd = out['reduce']
+            red = (f'reduce_eqb {mws} {rs} {qlist([F(x) for x in rd["xs"]])} '
+                   f'{clist([clist(g, cnat) for g in rd["groups"]])} {clist([crxn(x) for x in rd["result"]])}')
         return (f'(srun_eqb {xs} {clist(sops)} {clist(hs)} {reads} {clist(out["oks"], cbool)} && {cbool(fresh)} && '
-                f'set_acts_eqb {rs} (fst (srun {xs} {clist(sops)})) {qlist(case["feed"])} {acts})')
+                f'set_acts_eqb {rs} (fst (srun {xs} {clist(sops)})) {qlist(case["feed"])} {acts} && {red})')
     store = clist([crxn(s) for s in out['init']])
     ops = clist([cop(o) for o in out['ops']])
     expect = clist([crxn(s) for s in out['final']])
